@@ -24,7 +24,7 @@ def obligations(tier):
                           f"delimited / differently cased column names {nst} in column definitions, key lists, constraints and foreign keys are reported verbatim and never confused with each other"))
     obs.append(Ob("C06.norm/pipeline", "pipe", "c_norm_pipe", {}, 300 if tier == "quick" else 900,
                   ["whole pipeline (harness/pipe.py) with normalize_names toggled on the shared parser object"],
-                  "6 catalogued statements with delimited names in every naming position (symbolic index): output with normalize_names=True == output without it, delimiters stripped"))
+                  "12 catalogued statements with delimited names in every naming position, incl. delimited names spelling SQL words (type, key, comment, index, table) inside ALTER statements (symbolic index): output with normalize_names=True == output without it, delimiters stripped"))
     obs.append(Ob("C06.pipe/ident-chars", "pipe", "c_ident_rel", {}, 400 if tier == "quick" else 1200,
                   ["whole pipeline (harness/pipe.py): pre-processor incl. comment handling, lexer, LALR driver, actions, output"],
                   "18 catalogued identifiers (letters, digits, _ $ # @ -, trailing / inner '#', mixed case, delimited forms containing '#') x 12 name positions "
